@@ -27,6 +27,7 @@ func init() {
 			{ID: "C10.R3", Min: 3, Doc: "emit then forget: ordering of sends on Aggregator.out and delete(aggregations, ts) inside the tsList loop; send/Inc pairing by path enumeration of one iteration", Run: c10r3},
 			{ID: "C10.R4", Min: 2, Doc: "bucket start: value flow of AddOrCreate's `quantized` argument; operands of the two Sprintf calls in Flush", Run: c10r4},
 			{ID: "C10.R6", Min: 2, Doc: "bucket list stays sorted: on every path after tsList = append(tsList, q) the function either passes the in-order edge of a comparison of the previous last element with q (or finds the list shorter than two), or calls a library sort on tsList; the only other stores into tsList re-slice it (Flush) — a hand-written insertion is reported, because its correctness is a claim about values this analysis cannot decide", Run: c10r6},
+			{ID: "C10.R7", Min: 1, Doc: "ticks carry the current time: the value clock.AlignedTick sends on its channel is time.Now() read after the sleep — run derives the flush cutoff (tick − wait) from it, so a tick that lies in the future flushes buckets that are still open (and lets them be re-created and emitted again)", Run: c10r7},
 			{ID: "C10.R5", Min: 12, Doc: "registry: string cases of GetProcessorConstructor ↔ constructors ↔ Processor implementations ↔ docs/aggregation.md", Run: c10r5},
 		},
 	})
@@ -715,4 +716,42 @@ func derivedFromField(v ssa.Value, f *types.Var) bool {
 		}
 	}
 	return false
+}
+
+func c10r7(c *Check) {
+	at := c.P.Func("clock", "", "AlignedTick")
+	n := 0
+	for _, f := range withAnons(at) {
+		f := f
+		var sleep ssa.Instruction
+		allInstrs(f, func(in ssa.Instruction) {
+			if isCallNamed(in, "time.Sleep") {
+				sleep = in
+			}
+		})
+		check := func(in ssa.Instruction, v ssa.Value) {
+			n++
+			call, ok := v.(*ssa.Call)
+			okV := ok && calleeName(call.Common()) == "time.Now"
+			okAfter := okV && sleep != nil && (instrDominates(sleep, call) || instrReachAvoiding(sleep, call, nil))
+			c.Judge(okV && okAfter, "clock.AlignedTick sends time.Now() taken after the sleep", c.At(in), "tick value = time.Now() after time.Sleep", "the tick that is sent is not the current time read after the sleep (a computed / nominal time): the aggregator derives `now − wait` from it, so buckets are flushed before their wait has elapsed or long after")
+		}
+		allInstrs(f, func(in ssa.Instruction) {
+			switch x := in.(type) {
+			case *ssa.Send:
+				if _, isChan := x.Chan.Type().Underlying().(*types.Chan); isChan && strings.HasSuffix(x.X.Type().String(), "time.Time") {
+					check(in, x.X)
+				}
+			case *ssa.Select:
+				for _, st := range x.States {
+					if st.Dir == types.SendOnly && st.Send != nil && strings.HasSuffix(st.Send.Type().String(), "time.Time") {
+						check(in, st.Send)
+					}
+				}
+			}
+		})
+	}
+	if n == 0 {
+		anchorFail("clock.AlignedTick: no send of a tick")
+	}
 }
